@@ -111,13 +111,23 @@ def _try_ctor(a):
 
 
 def _try_call(c):
+    """the judged call is the last one of a short history on one Shaper: 'fresh' (first call), 'after_valid' (a valid call before),
+    'repeat' (the same call once before), 'valid_then_repeat' (a valid call, then the same call once before); with source
+    'unreadable' the graph file does not exist: argument checks must still come first"""
     from shexer.shaper import Shaper
-    sh = Shaper(raw_graph=NT_TEXT, all_classes_mode=True)
     d = tempfile.mkdtemp(prefix="shexer-verif-c20c-")
     try:
+        if c.get("source") == "unreadable":
+            sh = Shaper(graph_file_input=os.path.join(d, "missing.nt"), all_classes_mode=True)
+        else:
+            sh = Shaper(raw_graph=NT_TEXT, all_classes_mode=True)
         kw = {"string_output": c["string"], "output_format": c["ofmt"], "acceptance_threshold": c["thrnum"] / c["thrden"]}
         if c["file"]:
             kw["output_file"] = os.path.join(d, "out.txt")
+        valid = {"string_output": True, "acceptance_threshold": 0.5}
+        before = {"fresh": [], "after_valid": [valid], "repeat": [kw], "valid_then_repeat": [valid, kw]}[c.get("history", "fresh")]
+        for b in before:
+            runner.call_guarded(lambda: sh.shex_graph(**b), timeout=10)
         st, v, exc, frame = runner.call_guarded(lambda: sh.shex_graph(**kw), timeout=10)
     finally:
         shutil.rmtree(d, ignore_errors=True)
@@ -173,20 +183,27 @@ def check_c20(out, tier):
         for ofmt in ("ShEx", "Shacl", "bogus"):
             for string in (False, True):
                 for file in (False, True):
-                    calls.append({"id": "c%d" % i, "thrnum": thr, "thrden": 100, "ofmt": ofmt, "string": string, "file": file, "uml": False})
-                    i += 1
+                    for history in ("fresh", "after_valid", "repeat", "valid_then_repeat"):
+                        calls.append({"id": "c%d" % i, "thrnum": thr, "thrden": 100, "ofmt": ofmt, "string": string, "file": file, "uml": False,
+                                      "history": history, "source": "ok"})
+                        i += 1
+                    # an unreadable source: invalid call arguments must be reported as such, not masked by the I/O failure
+                    if thr in (-1, 101) or ofmt == "bogus" or not (string or file):
+                        calls.append({"id": "c%d" % i, "thrnum": thr, "thrden": 100, "ofmt": ofmt, "string": string, "file": file, "uml": False,
+                                      "history": "fresh", "source": "unreadable"})
+                        i += 1
     cres = runner.run_many(_try_call, calls, chunk=10)
     traces = []
     for a, r_ in zip(vectors, results):
         if r_.get("status") == "harness-error":
             raise common.Machinery("harness error: %s\n%s" % (r_.get("exc"), r_.get("trace", "")))
         traces.append({"id": a["id"], "kind": "ctor", "a": {k: a[k] for k in a if k != "id"}, "ctor": r_["ctor"], "call": r_["call"],
-                       "c": calls[0], "outcome": ""})
+                       "c": {k: calls[0][k] for k in calls[0] if k not in ("id", "history", "source")}, "outcome": ""})
     for c, r_ in zip(calls, cres):
         if r_.get("status") == "harness-error":
             raise common.Machinery("harness error: %s\n%s" % (r_.get("exc"), r_.get("trace", "")))
         traces.append({"id": c["id"], "kind": "call", "a": {k: vectors[0][k] for k in vectors[0] if k != "id"}, "ctor": "", "call": "",
-                       "c": {k: c[k] for k in c if k != "id"}, "outcome": r_["outcome"]})
+                       "c": {k: c[k] for k in c if k not in ("id", "history", "source")}, "outcome": r_["outcome"], "history": c["history"] + "/" + c["source"]})
     verdicts, stats = tlc.validate_batch("Trace_Config", "Trace_Config.cfg", traces, procs=12, chunk=None)
     out.traces += len(traces)
     out.evaluations += len(traces)
